@@ -305,8 +305,9 @@ def tlc_cases(ctx, module, cfg, name, workers=8, timeout=3000):
         for line in out.splitlines():
             if line.startswith('"{'):
                 s = json.loads(line)
-                if s not in seen:
-                    seen.add(s)
+                key = json.dumps(json.loads(s), sort_keys=True)
+                if key not in seen:
+                    seen.add(key)
                     f.write(s + "\n")
     if not seen:
         raise Infra("%s/%s printed no cases:\n%s" % (module, cfg, out[-1500:]))
@@ -546,3 +547,36 @@ def p_c05(ctx):
         "samples": [json.loads(x) for x in open(files[0]).read().splitlines()[1:3]], "exhaustive": False},
         assumptions=["the 'no data race' half is observed by the Go race detector (happens-before), the only instrument that sees the implementation's memory accesses; a race on a path no generated query reaches is not seen",
                      "gates exist in MergeBlockBodySchemas only"])
+
+
+# ------------------------------------------------------------------------------------------------
+# Expression family: C10 (and the value parts of C13 / C12 / C08 / C11) - MC_Expr -> replay -> TraceExpr
+# ------------------------------------------------------------------------------------------------
+def expr_family(ctx, want):
+    cases, n = tlc_cases(ctx, "MC_Expr.tla", "MC_Expr_quick.cfg" if ctx.quick else "MC_Expr_full.cfg", "mcexpr", timeout=3000)
+    pre = os.path.join(ctx.work, "ex")
+    p = ctx.run_hx(["expr", "-cases", cases, "-out", pre, "-styles", "2", "-seed", str(ctx.seed)])
+    info = json.loads(p.stdout.strip().splitlines()[-1])
+    files = sorted(glob.glob(pre + ".*.ndjson"))
+    bad, events = ctx.validate_traces("TraceExpr.tla", "TraceExpr.cfg", files)
+    viols = []
+    for b in bad:
+        if b["prop"] not in want:
+            continue
+        e = json.loads(open(b["file"]).read().splitlines()[b["l"] - 1])
+        viols.append({"what": b["what"], "replay": {"pipeline": "expr", "case": {k: e[k] for k in ("cons", "expr", "level", "flags")}, "layout": e["layout"],
+                                                    "observed": {k: e[k] for k in e if k in ("origins", "tokens", "hovers")}}})
+    e0 = json.loads(open(files[0]).readline())
+    cov = {"evaluations": info["events"], "distinct_nontrivial": n,
+           "rule": "case = (constraint, well-typed expression of depth <= D over literals, references (attribute, index, key, legacy index, splat, self, unresolved), lists, objects, templates, "
+                   "operators, conditionals, calls of known/unknown functions, parentheses, index and for expressions; placement and self-reference settings), all of MC_Expr's universe",
+           "traces_validated_against_impl": len(files), "trace_events": events,
+           "samples": [{k: e0[k] for k in ("cons", "expr", "origins")}], "exhaustive": True}
+    return viols, cov
+
+
+@pipeline("C10")
+def p_c10(ctx):
+    viols, cov = expr_family(ctx, {"C10"})
+    finish(ctx, viols, cov, assumptions=["expressions are well typed for their constraint (ill-typed sub-expressions assert nothing)",
+                                         "origins are compared by (file, exact range, address); constraints of origins are not part of the statement"])
